@@ -163,3 +163,12 @@ Theorem C13_source_saturating_add :
   forall a b, 0 <= a <= max64 -> 0 <= b <= max64 -> src_saturating_add a b = go_sat_add a b.
 Proof. exact tie_saturating_add. Qed.
 Print Assumptions C13_source_saturating_add.
+
+(* the window test itself — some source (the stored response's stale-if-error, the request's) with a usable value for which the
+   age at the clock reading is below lifetime plus window, both sums saturating — is the CanStaleOnError of
+   internal/cacheabilityevaluator.go on this run (Generated/SrcStaleIfError.v) *)
+From HC.Generated Require Import SrcStaleIfError.
+From HC.Proofs Require Import TieStaleIfError.
+Theorem C13_source_window : forall f sies now, src_can_stale_on_error f sies now = can_stale_on_error f sies now.
+Proof. exact tie_can_stale_on_error. Qed.
+Print Assumptions C13_source_window.
